@@ -5,8 +5,15 @@ Values: int | tuple | list | None.  JSON form: int | {"t": [...]} | {"l": [...]}
 """
 
 
+BOOMS = []          # every raise of a fault-injecting symbol is recorded here (value that triggered it)
+
+
 class Boom(Exception):
     """raised by fault-injecting symbols"""
+
+    def __init__(self, *a):
+        super().__init__(*a)
+        BOOMS.append(a[0] if a else None)
 
 
 def deep_sum(v):
